@@ -200,7 +200,9 @@ End SortRel.
 Lemma isort_map_values {A B} (g : bytes * A -> bytes * B) (l : list (bytes * A)) :
   (forall e, fst (g e) = fst e) -> isort (map g l) = map g (isort l).
 Proof.
-  intros Hg. induction l as [|e l IH]; cbn; [reflexivity|]. rewrite IH.
+  intros Hg. induction l as [|e l IH]; [reflexivity|].
+  change (isort (map g (e :: l))) with (ins (g e) (isort (map g l))).
+  change (isort (e :: l)) with (ins e (isort l)). rewrite IH.
   generalize (isort l). intros s. induction s as [|h t IHs]; cbn; [reflexivity|].
   rewrite !Hg. destruct (ble (fst e) (fst h)); cbn; [reflexivity|]. now rewrite IHs.
 Qed.
